@@ -3,18 +3,26 @@ CHECK = {
         suite("pins", "c14", 400, 4000, stdin=True, args=["-suite", "pins"], timeout={"quick": 600, "thorough": 1800}),
         suite("rot", "c14", 400, 4000, stdin=True, args=["-suite", "rot"], timeout={"quick": 600, "thorough": 1800}),
         suite("ps", "c14", 800, 8000, stdin=True, args=["-suite", "ps"], timeout={"quick": 600, "thorough": 1800}),
+        suite("crash", "c14", 24, 240, stdin=True, args=["-suite", "crash"], timeout={"quick": 600, "thorough": 2400}),
     ],
     "search_seeds": {"quick": 3, "thorough": 2},
     "gen": [{"pkg": "extract_c14", "out": "lean/ClusterVerif/Gen/C14.lean"}],
-    "lean_sources": ["ClusterVerif/Model/C14Source.lean", "ClusterVerif/Gen/C14.lean", "ClusterVerif/Model/C14.lean", "ClusterVerif/Spec/C14.lean", "ClusterVerif/Lemmas/C14.lean"],
+    "lean_sources": ["ClusterVerif/Model/C14Source.lean", "ClusterVerif/Gen/C14.lean", "ClusterVerif/Model/C14.lean", "ClusterVerif/Spec/C14.lean", "ClusterVerif/Lemmas/C14.lean",
+                     "ClusterVerif/Model/C14Crash.lean", "ClusterVerif/Spec/C14Crash.lean", "ClusterVerif/Lemmas/C14Crash.lean"],
     "rule": "pins: (pinset of 0-40 generated pins over all types/options, prior content of the target, stream damage) through "
             "Marshal/Unmarshal, SnapshotSave/OfflineState, raft and crdt state-manager export/import (and a started Raft peer on some); "
             "rot: (retention, pre-existing folder set with gaps/outside the window, 1-14 clean/save/mkdir/reconfigure operations) on real folders; "
             "ps: (peerstore content with ip/dns/multiple addresses and priorities, requested peers) saved, loaded and imported by a fresh host, "
-            "and hand-written files with malformed lines in every shape (LF/CRLF/CRCRLF line ends, final newline or not, byte order mark); reshaped export streams; folder-name spellings; one splitmix64 stream per case index; non-trivial = exercises a clause; distinct by case line",
+            "and hand-written files with malformed lines in every shape (LF/CRLF/CRCRLF line ends, final newline or not, byte order mark); reshaped export streams "
+            "(also concatenated exports, a record without cid, trailing garbage, duplicate cids); crdt chain over leveldb and badger; folder-name spellings; "
+            "crash: (operation clean/save/import/failing import, retention, pre-existing folder set) x every kill point of the real process (killed under strace on entering its K-th "
+            "mkdirat/unlinkat/renameat), directory read back, operation restarted; (old peerstore file, new peer infos) x every kill point of SavePeerstore and every byte cut of the file; "
+            "one splitmix64 stream per case index; non-trivial = exercises a clause; distinct by case line",
     "trusted_base": ["byte-level codecs of the atoms (cid, peer id, multiaddress, strings, time) are abstracted to table indices: "
                      "the harness maps real values back to indices and reports anything it cannot map",
-                     "go-datastore MapDatastore/leveldb, hashicorp/raft FileSnapshotStore, libp2p memory peerstore behave as their APIs say"],
+                     "go-datastore MapDatastore/leveldb/badger, hashicorp/raft FileSnapshotStore, libp2p memory peerstore behave as their APIs say",
+                     "crash = death of the process between two system calls (strace inject signal=KILL on entering the K-th call); power loss / fsync ordering is outside the model; "
+                     "the step order inside hashicorp/raft v1.1.1 FileSnapshotStore (tmp directory, rename) is observed by the kills, not regenerated"],
     "assumptions": ["well-formed pin: a real pin type, factors and depth within int32, expiry not after year 9999, valid UTF-8 strings",
                     "backups_rotate >= 1 (Config.Validate rejects other values)"],
 }
